@@ -68,6 +68,7 @@ type c14Case struct {
 	Params []tParam `json:"params"`
 	NTs    []tNT    `json:"nts"`
 	Inputs []int    `json:"inputs"`
+	NoEoi  []bool   `json:"noeoi,omitempty"` // per input: declared `no-eoi`
 }
 
 func c14Gen(t *rapid.T) c14Case {
@@ -218,6 +219,9 @@ func (c *c14Case) render() string {
 			sb.WriteString(", ")
 		}
 		sb.WriteString(c.NTs[in].Name)
+		if i < len(c.NoEoi) && c.NoEoi[i] {
+			sb.WriteString(" no-eoi")
+		}
 	}
 	sb.WriteString(";\n\n")
 	for i, nt := range c.NTs {
@@ -559,6 +563,25 @@ func c14Check(c c14Case, r *ev.Recorder) *Failure {
 	for i := out.NumTokens; i < len(out.Syms); i++ {
 		ntIndex[out.Syms[i].Name] = i - out.NumTokens
 	}
+	// the declared inputs survive instantiation with their end-of-input mode
+	var userInputs []int
+	for i, inp := range out.Parser.Inputs {
+		if !inp.Synthetic {
+			userInputs = append(userInputs, i)
+		}
+	}
+	if len(userInputs) != len(c.Inputs) {
+		return failf("inputs-differ", "%d inputs declared, the compiled grammar has %d user inputs; grammar:\n%s", len(c.Inputs), len(userInputs), src)
+	}
+	for k, i := range userInputs {
+		inp := out.Parser.Inputs[i]
+		if name := out.Parser.Nonterms[inp.Nonterm].Name; name != c.NTs[c.Inputs[k]].Name {
+			return failf("inputs-differ", "input %d is %s, declared %s; grammar:\n%s", k, name, c.NTs[c.Inputs[k]].Name, src)
+		}
+		if want := k < len(c.NoEoi) && c.NoEoi[k]; inp.NoEoi != want {
+			return failf("input-eoi-mode", "input %s: declared no-eoi=%v, after instantiation no-eoi=%v; grammar:\n%s", c.NTs[c.Inputs[k]].Name, want, inp.NoEoi, src)
+		}
+	}
 	big := false
 	for k, inp := range c.Inputs {
 		name := c.NTs[inp].Name
@@ -613,7 +636,7 @@ func c14Check(c c14Case, r *ev.Recorder) *Failure {
 func TestC14(t *testing.T) {
 	p := &prop[c14Case]{
 		ID:   "C14",
-		Rule: "templated grammars: 1..3 global %flag parameters (default true/false/none), 0..2 %lookahead flags, 2..5 nonterminals declaring subsets of the globals and inline `flag X [= default]` parameters (names X/Y reused across nonterminals so that name-based propagation happens), alternatives with predicates in disjunctive form over p, !p, p == lit, p != lit (&& binds tighter than ||), references with any mix of +P, ~P, P: true/false, P: Q, bare P (propagate) and omitted arguments, optional references, recursion; in a third of the cases 1..4 parts `set(X<args>)`, `set(first X<args>)`, `set(last X<args>)` with literal arguments (often two of them over the same nonterminal with different arguments), evaluated by the interpreter as least fixpoints over the instantiated rules; 1..2 unparametrized inputs. Compiled with compiler.Compile (kept when accepted or only LALR conflicts are reported). An independent interpreter instantiates (nonterminal, valuation) pairs from the inputs — omitted argument: same-named parameter of the caller, else the default; lookahead flags: explicit value, else inherited by the leftmost reference of an alternative, else false — and the set of terminal strings of length <= 5 of every input must equal the one of grammar.Parser.Rules. Non-trivial: some nonterminal instantiated with >= 2 valuations and >= 2 strings in an input; distinct by case JSON.",
+		Rule: "templated grammars: 1..3 global %flag parameters (default true/false/none), 0..2 %lookahead flags, 2..5 nonterminals declaring subsets of the globals and inline `flag X [= default]` parameters (names X/Y reused across nonterminals so that name-based propagation happens), alternatives with predicates in disjunctive form over p, !p, p == lit, p != lit (&& binds tighter than ||), references with any mix of +P, ~P, P: true/false, P: Q, bare P (propagate) and omitted arguments, optional references, recursion; in a third of the cases 1..4 parts `set(X<args>)`, `set(first X<args>)`, `set(last X<args>)` with literal arguments (often two of them over the same nonterminal with different arguments), evaluated by the interpreter as least fixpoints over the instantiated rules; one unparametrized input, declared no-eoi in two ninths of the cases (the compiled grammar must list the declared inputs with their end-of-input mode). Compiled with compiler.Compile (kept when accepted or only LALR conflicts are reported). An independent interpreter instantiates (nonterminal, valuation) pairs from the inputs — omitted argument: same-named parameter of the caller, else the default; lookahead flags: explicit value, else inherited by the leftmost reference of an alternative, else false — and the set of terminal strings of length <= 5 of every input must equal the one of grammar.Parser.Rules. Non-trivial: some nonterminal instantiated with >= 2 valuations and >= 2 strings in an input; distinct by case JSON.",
 		Assume: []string{"an instance whose alternatives are all disabled has no agreed meaning (Textmapper makes it derive the empty string); such grammars are counted and skipped", "only whole-input languages are compared, not the individual instantiated nonterminals"},
 		Quick:  24000, Thorough: 1200000,
 		Gen:   c14Gen2,
